@@ -8,6 +8,7 @@ require (
 	github.com/anishathalye/porcupine v1.3.0
 	github.com/go-redis/redis/v8 v8.11.5
 	github.com/gobwas/glob v0.2.3
+	github.com/oklog/ulid/v2 v2.1.0
 	google.golang.org/protobuf v1.30.0
 )
 
